@@ -474,3 +474,10 @@ def run_case(desc):
     obs.count("reconstructions_compared", compared)
     obs.nontrivial = nslots >= 2 and compared >= 1
     return obs.result()
+
+TECHNIQUE = "runtime reference-model monitor + call-history monitor over generated structures"
+LEVEL_TEXT = ("Held on every generated structure/history of the run: random nested structures with tensor and container aliasing "
+              "plus all set partitions of <=5 slots over fixed skeletons, each driven through a random history of Packer calls and "
+              "compared slot by slot with an independent reference model; input, Packer and earlier results re-snapshotted at the "
+              "quiescent point. Not a proof: only generated structures (<=12 containers, <=10 slots, nesting <=4) are decided.")
+LEVEL_NOTE = "Trusts the reference model in vf/props/c20.py and torch tensor identity/equality."
